@@ -17,9 +17,9 @@ from cryptography.hazmat.primitives import hashes
 from cryptography.hazmat.primitives.asymmetric import ec, padding, utils as asym_utils
 
 PID = "C15"
-THEOREMS = ["struct_roundtrip", "dc_roundtrip", "dc_roundtrip_p521", "dc_created_roundtrip", "dc_sig_covers_all",
-            "dc_verify_obligation", "dc_names_rot_key", "dc_rot_hash_rsa", "dar_embeds_dc_beacon", "dar_binds", "dar_verify_sound",
-            "dac_roundtrip", "parse_dispatch"]
+THEOREMS = ["struct_roundtrip", "dc_roundtrip", "dc_roundtrip_p521", "dc_created_roundtrip", "dc_ele_v1_roundtrip", "dcv2_roundtrip",
+            "dc_sig_covers_all", "dc_verify_obligation", "dc_names_rot_key", "dc_rot_hash_rsa", "dc_rot_hash_ecc", "dar_embeds_dc_beacon",
+            "dar_binds", "dar_verify_sound", "dac_roundtrip", "parse_dispatch"]
 KEYDIR = os.path.join(vlib.WORK, PID, "keys")
 TMPDIR = os.path.join(vlib.WORK, PID, "tmp")
 KLASS = {"DebugCredentialCertificateRsa": 0, "DebugCredentialCertificateEcc": 1, "DebugCredentialEdgeLockEnclave": 2}
@@ -400,7 +400,7 @@ def gen_cases(tier, rng, w):
                    bytes(16)):
             cs.append({"op": "dc", "v2": 1, "family": f["family"], "revision": f["revision"], "keys": ["p256_0"], "rot_id": 0, "rotk": "p256_0",
                        "dck": "p256_1", "uuid": uu.hex(), "socu": val32(), "vu": 0, "beacon": 0, "fuse_version": 0})
-    streams["EdgeLock container-v2 credentials (AHAB certificate; oracle only)"] = cs
+    streams["EdgeLock container-v2 credentials (AHAB certificate): life cycle, exact correspondence + spec oracles"] = cs
     # ---- 6. object history: the SAME object exported twice, re-signed, changed through its public members and exported again
     cs = []
     for rep_i in range(3 if thorough else 1):
@@ -723,8 +723,8 @@ def oracle_dcv2(case, r, w):
     out = []
     f = w.facts(case)
 
-    # recorded class C15-F6: a uuid whose configured value needs fewer than 13 bytes (four or more leading zero bytes)
-    tag = "uuid-leading-zeros:" if len(uuid_bytes_v2(case["uuid"])) != 16 else ""
+    # input class of the repaired defect C15-F6 (a uuid with four or more leading zero bytes): names the signature only
+    tag = "uuid-leading-zeros:" if len(uuid_shortest_aligned(case["uuid"])) != 16 else ""
 
     def bad(issue, msg):
         out.append((f"dcv2:{tag}{issue}", f"{msg} [family {case['family']} rev {case['revision']} signer {case['rotk']} dck {case['dck']} "
@@ -976,8 +976,14 @@ def lit(v):
 
 
 def uuid_bytes_v2(hexstr):
-    """what AhabCertificate.load_from_config makes of the configured uuid: value_to_bytes("0x...") = the integer in the fewest
-    bytes, rounded up to 1, 2, 4, 8, 12, 16, ... (spsdk.utils.misc.get_bytes_cnt_of_int with align_to_2n, C20)"""
+    """what AhabCertificate.load_from_config makes of the configured uuid: value_to_bytes("0x...", byte_cnt=16) = the integer as a
+    16-byte big-endian field (leading zero bytes kept)"""
+    return int(hexstr, 16).to_bytes(16, "big")
+
+
+def uuid_shortest_aligned(hexstr):
+    """the shortest aligned form (1, 2, 4, 8, 12, 16 bytes) value_to_bytes() returns without byte_cnt: only used to NAME the input
+    class of the repaired defect C15-F6 (uuid with four or more leading zero bytes)"""
     v = int(hexstr, 16)
     n = max(1, (v.bit_length() + 7) // 8)
     if n > 2:
@@ -1050,7 +1056,8 @@ def run(tier):
     model_ok, mlog = vlib.coq_make(["Model/DatModel.vo", "Model/DatV2Model.vo"])
     if not model_ok:
         rep.obligation("build:Model/DatModel.vo (layouts of the model = layouts extracted from the source)", False, mlog)
-    vlib.check_theorems(rep, PID, THEOREMS, ["Proofs/DatProofs.vo", "Proofs/DatCreateProofs.vo"])
+    vlib.check_theorems(rep, PID, THEOREMS, ["Proofs/DatProofs.vo", "Proofs/DatCreateProofs.vo", "Proofs/DatHashProofs.vo",
+                                            "Proofs/DatEleProofs.vo", "Proofs/DatV2Proofs.vo"])
     if tier == "thorough":
         vlib.coqchk(rep, PID, THEOREMS)
     vlib.audit(rep)
@@ -1325,13 +1332,13 @@ def run(tier):
         rule="cases are drawn from VERIF_SEED over every DAT family/revision of the database x protocol version x RoT key count x "
              "used index; distinct_nontrivial counts distinct accepted outputs (exported credentials / parsed objects)",
         trusted_base=["Coq 8.16.1 kernel + vm_compute", "tools/regen_c15.py (formats / version tables / database facts as the code computes them)",
-                      "hand model Model/DatModel.v tied by correspondence", "Model/RotModel.v + Crypto/Sha2.v (C03 / CryptoRef, imported)",
+                      "hand models Model/DatModel.v and Model/DatV2Model.v tied by correspondence", "Model/RotModel.v + Crypto/Sha2.v (C03 / CryptoRef, imported)",
                       "`cryptography` (OpenSSL) as the independent RSA/ECDSA verifier and PEM decoder",
                       f"model cases compared {ncmp}, outside the modelled domain {nskip}"],
-        checker_cmd="coqc -R . V Props/C15/*.v (after make Proofs/DatProofs.vo Proofs/DatCreateProofs.vo)",
+        checker_cmd="coqc -R . V Props/C15/*.v (after make Proofs/Dat{,Create,Hash,Ele,V2}Proofs.vo)",
         assumptions=["RSA/ECDSA primitives and PEM/DER decoding are black boxes (signature obligations discharged by `cryptography` in the run)",
                      "raw key blobs are never valid UTF-8 PEM text nor DER SubjectPublicKeyInfo",
-                     "EdgeLock container version 2 credentials (AHAB certificate) are outside the Coq model",
+                     "EdgeLock container version 2: second key set (public_key_1 / signature_1) and the responses (AHAB signed message) are outside the model",
                      "RoT-hash equality with the image tools is the C03 statement, restricted to RSA keys with a 3-byte exponent and P-256/P-384"])
 
 
